@@ -343,7 +343,9 @@ func TestZZBoundedBtreeTree(t *testing.T) {
 	}
 	// part B: sampled, load balancing off
 	for _, c := range cfgs {
-		if c.balance {
+		if c.balance && c.slot == 2 {
+			// slot length 2 with load balancing carries the known finding of part C: sampled runs would hit the same root
+			// cause through ever different inputs
 			continue
 		}
 		evaluated, failures := 0, 0
